@@ -503,3 +503,53 @@ func H_C15_derived_overriding_get() {
 	verifAssert(asyM.Count() == seqM.Count() && asyM.TypeOf("a") == seqM.TypeOf("a") && hSameResult(asyM.String(), seqM.String()), "MapAsync returns exactly what Map returns for the same pure function")
 	verifReach("end")
 }
+
+// the shared container is itself the product of a deriving operation (Clone, SubList, Concat, the nested list of a
+// cloned object) and nothing has been called on it yet: its very first use happens concurrently
+func H_C15_concurrent_readers_of_derived() {
+	verifBound("READERS", 2)
+	x := nondetInt()
+	verifAssume(verifAnd(x >= 0, x < 10))
+	prov := nondetIntRange(0, 3)
+	derive := func() (List, List, Object) {
+		l0, b0, o0 := hReaderFixture(x, 0)
+		switch prov {
+		case 0:
+			return l0.Clone(), b0, o0
+		case 1:
+			return l0.SubList(0, 3), b0, o0
+		case 2:
+			return l0.Concat(NewList()), b0, o0
+		default:
+			oc := o0.Clone()
+			var nested List
+			oc.ForEachList(func(v List) { nested = v }) // handed over by the walk; no method of it has run
+			return nested, b0, oc
+		}
+	}
+	lr, br, or := derive()
+	l, b, o := derive()
+	op1 := []int{1, 2, 3, 4, 7, 9, 10, 11, 13, 21}[nondetIntRange(0, 9)]
+	op2 := op1
+	if nondetBool() {
+		op2 = []int{0, 2, 3, 10}[nondetIntRange(0, 3)]
+	}
+	want1 := hReaderOp(lr, br, or, op1)
+	want2 := hReaderOp(lr, br, or, op2)
+	var r1, r2 any
+	var wg sync.WaitGroup
+	verifSchedAll(1)
+	wg.Add(2)
+	go func() {
+		r1 = hReaderOp(l, b, o, op1)
+		wg.Done()
+	}()
+	go func() {
+		r2 = hReaderOp(l, b, o, op2)
+		wg.Done()
+	}()
+	wg.Wait()
+	verifAssert(verifRaces() == 0, "the first, concurrent, non-mutating use of a derived container is free of data races")
+	verifAssert(hSameResult(want1, r1) && hSameResult(want2, r2), "concurrent non-mutating operations on a derived container return the sequential results")
+	verifReach("end")
+}
